@@ -786,11 +786,19 @@ def check(model, rep, tier):
     taken = {}
     undecided = False
     for conds, val in all_paths:
-      ts = [_truth(t, n_args, nones) for pol, t in conds]
-      if any(x is None for x in ts):
-        undecided = True
-        continue
-      if all(x == (pol == 'T') for x, (pol, t) in zip(ts, conds)):
+      # conditions in program order: a path already ruled out by an earlier
+      # test never evaluates the later ones
+      feasible = True
+      for pol, t in conds:
+        x = _truth(t, n_args, nones)
+        if x is None:
+          undecided = True
+          feasible = False
+          break
+        if x != (pol == 'T'):
+          feasible = False
+          break
+      if feasible:
         taken[core.norm(val)] = val
     if undecided or len(taken) != 1:
       by_count[label] = 'paths not decided by the argument shape (%d feasible)' % len(taken)
